@@ -103,6 +103,8 @@ class Sys1:
             return (lambda x: ("F", x)), True
         if name == "G":
             return (lambda x: ("G", x)), True
+        if name == "H":
+            return (lambda x: ("H", x)), True
         obj, fn, reads = self.impls[name]
         return fn, reads
 
@@ -122,6 +124,14 @@ class Sys1:
             self.d.overload([self.alias("a"), self.alias("b")])(F)
             self.table["a"] = "F"
             self.table["b"] = "F"
+        elif kind == "overload_single":
+
+            def H(x=Option("X", 0)):
+                return ("H", x)
+
+            # ONE alias (a tuple when the dispatch is a dataset): a hashable value, not a list of aliases
+            self.d.overload(self.alias(o[1]))(H)
+            self.table[o[1]] = "H"
         elif kind == "overload_stacked":
 
             def G(x=Option("X", 0)):
@@ -176,7 +186,7 @@ class Sys1:
 DICTS = [{"X": x, **({"D": d} if d is not None else {})} for d in (None, "a", "b", "zz") for x in (1, 2)]
 OPS = (
     [("register", "a", "V1"), ("register", "a", "OX"), ("register", "b", "V2"), ("register", "b", "DS1"), ("register", "a", "V2")]
-    + [("overload_list",), ("overload_stacked",), ("set_dispatch",)]
+    + [("overload_list",), ("overload_stacked",), ("overload_single", "b"), ("set_dispatch",)]
     + [("evaluate", tuple(sorted(o.items()))) for o in DICTS]
 )
 VARIANTS = [(False, "key"), (True, "key"), (False, "optdef"), (False, "dataset"), (True, "dataset")]
@@ -443,6 +453,30 @@ def check_multi(res, shapes_a=None):
     return fails
 
 
+def check_overloaded_objects(res):
+    """Two Overloaded objects built from the same initial dictionary stay independent, and the
+    caller's dictionary is not modified by register()."""
+    from labrea import Option, Overloaded, Value
+
+    fails = []
+    initial = {"a": Value("impl-a")}
+    snapshot = dict(initial)
+    o1 = Overloaded(Option("D"), initial, Value("default-1"))
+    o2 = Overloaded(Option("D"), initial)
+    o1.register("b", Value("impl-b"))
+    res["evaluations"] += 4
+    r = observe(None, lambda: o2.evaluate({"D": "b"}))
+    if r.ok:
+        fails.append({"sig": "C07|overloaded-objects|leak", "what": "an alias registered on one Overloaded is served by another one built from the same initial dictionary", "detail": repr(r), "case": ("ovobj",)})
+    if initial != snapshot:
+        fails.append({"sig": "C07|overloaded-objects|caller-dict", "what": "register() modified the dictionary the Overloaded was constructed from", "detail": repr(initial), "case": ("ovobj",)})
+    for o, d, want in ((o1, "b", "impl-b"), (o1, "a", "impl-a"), (o2, "a", "impl-a"), (o1, "zz", "default-1")):
+        r = observe(None, lambda: o.evaluate({"D": d}))
+        if not r.ok or r.value != want:
+            fails.append({"sig": f"C07|overloaded-objects|{d}", "what": f"Overloaded under D={d}: {r!r}, expected {want!r}", "detail": "", "case": ("ovobj",)})
+    return fails
+
+
 def check_dependent(res):
     """Interface members that depend on other members resolve the same alias."""
     from labrea import abstractdataset, dataset, interface, Option
@@ -502,6 +536,7 @@ def cases(tier, seed):
     for a in range(0, len(mshapes), 3):
         out.append(("multi", [list(x) for x in mshapes[a : a + 3]]))
     out.append(("dependent",))
+    out.append(("ovobj",))
     return out
 
 
@@ -571,6 +606,10 @@ def run_case(case):
         return res
     if case[0] == "multi1":
         res["failures"] = check_multi(res, [tuple(case[1])])
+        res["states"] = 1
+        return res
+    if case[0] == "ovobj":
+        res["failures"] = check_overloaded_objects(res)
         res["states"] = 1
         return res
     if case[0] == "dependent":
